@@ -23,7 +23,8 @@ RULE += (". Widened: (c) ~8% of the documents get, at a random subschema and a r
          "through exact keywords — checked here against the statement, independent of the model; (e) ~6% of the Schema values have string "
          "slices (PropertyOrder, Required, Types, DependentRequired / DependencyStrings values, of one node or of two nodes) that are windows "
          "of ONE backing array (descriptor member `alias`), with properties PropertyOrder does not list: same bytes as without sharing, "
-         "and the Schema value is left as it was")
+         "and the Schema value is left as it was; (f) ~12% of the Schema values of (a) with name lists (Required, DependentRequired / "
+         "DependencyStrings values) that list a name twice or three times, adjacently or apart, as Go code that appends names produces them")
 TRUSTED = ["encoding/json's byte-level formatting of strings and numbers (outputs are compared after parsing, order kept)"]
 UNION = {"Type", "Types", "Items", "ItemsArray", "DependencySchemas", "DependencyStrings", "Const", "Properties", "Extra", "Default"}
 
@@ -190,7 +191,8 @@ def gen(rng, tier, n):
             ops.append({"op": "marshal", "args": {"desc": desc, "insts": insts}, "meta": {"facts": facts, "nt": True}})
             continue
         if rng.random() < 0.6:
-            desc, facts = gsv.gen_desc(rng, fields, depth=2 if tier == "quick" else 3)
+            # ~12 % of the values: name lists (Required, DependentRequired / DependencyStrings values) that repeat a name, adjacently or apart
+            desc, facts = gsv.gen_desc(rng, fields, depth=2 if tier == "quick" else 3, dup_p=0.4 if rng.random() < 0.12 else 0.0)
             insts = [gs.gen_instance(rng, 2) for _ in range(4)]
             nt = sum(len(nd) for nd in desc["nodes"]) >= 3 or any(set(nd) & UNION for nd in desc["nodes"])
             ops.append({"op": "marshal", "args": {"desc": desc, "insts": insts}, "meta": {"facts": facts, "nt": nt}})
